@@ -362,6 +362,7 @@ def step (w : World) (d : Decls) (o : MetaOp) : World × Json × Json :=
      | .ok w' => (w', Json.null, boolJson rej)
      | .error e => (w, errJson e, boolJson rej))
   | "wrap" => (w, Json.null, Json.null)      -- a foreign functools.wraps layer on top of the function: no effect on the contract state
+  | "call" => (w, Json.null, Json.null)      -- a call of the function: no effect on the contract state
   | _ => (w, jStr "unknown-op", Json.null)
 
 def run (c : MetaCase) : Json :=
